@@ -13,26 +13,26 @@ import (
 func genC01(t *rapid.T) KeyCase {
 	d := genWorld(t, WorldOpts{Modes: allModes, MaxMappings: 3, Actions: allKeyActions, ActionProb: 70, KeyAxes: 2, Subs: 2, AxesVary: true, Twins: true, Overlap: true})
 	steps := genHistory(t, d, HistOpts{MaxLen: 60, StateBias: 40, BurstMax: 4, Axes: true, Repeats: true, MidiIn: true, UnmappedKey: true})
-	return KeyCase{D: d, Steps: steps, NoLogs: rapid.IntRange(0, 9).Draw(t, "nologs") > 0}
+	return KeyCase{D: d, Steps: steps, NoLogs: rapid.IntRange(0, 9).Draw(t, "nologs") > 0, Bystander: genBystander(t, d)}
 }
 
 func genC02(t *rapid.T) KeyCase {
 	d := genWorld(t, WorldOpts{Modes: allModes, MaxMappings: 3, Actions: allKeyActions[:10], ActionProb: 80, Subs: 2, Twins: true, Overlap: true})
 	steps := genHistory(t, d, HistOpts{MaxLen: 50, StateBias: 70, BurstMax: 3, Repeats: true, UnmappedKey: true})
-	return KeyCase{D: d, Steps: steps, NoLogs: true}
+	return KeyCase{D: d, Steps: steps, NoLogs: rapid.IntRange(0, 7).Draw(t, "nologs") > 0, Bystander: genBystander(t, d)}
 }
 
 func genC03(t *rapid.T) KeyCase {
 	d := genWorld(t, WorldOpts{Modes: allModes, MaxMappings: 2, Actions: stateActions, ActionProb: 60, Subs: 2, Twins: true})
 	steps := genHistory(t, d, HistOpts{MaxLen: 50, StateBias: 35, BurstMax: 2, Repeats: true})
-	return KeyCase{D: d, Steps: steps, NoLogs: true}
+	return KeyCase{D: d, Steps: steps, NoLogs: rapid.IntRange(0, 7).Draw(t, "nologs") > 0, Bystander: genBystander(t, d)}
 }
 
 func genC04(t *rapid.T) KeyCase {
 	d := genWorld(t, WorldOpts{Modes: allModes, MaxMappings: 3, Actions: allKeyActions[:10], ActionProb: 85, WideDefaults: true, Subs: 2, Velocity0: true, Overlap: true})
 	steps := genHistory(t, d, HistOpts{MaxLen: 60, StateBias: 30, BurstMax: 14, NoPanic: true})
 	steps = boundTransposition(d, steps)
-	return KeyCase{D: d, Steps: steps, NoLogs: true}
+	return KeyCase{D: d, Steps: steps, NoLogs: rapid.IntRange(0, 7).Draw(t, "nologs") > 0, Bystander: genBystander(t, d)}
 }
 
 // boundTransposition truncates the history before |octave| would exceed 12 or |semitone| 120:
@@ -89,7 +89,7 @@ func genC13(t *rapid.T) C13Case {
 			}
 		}
 	}
-	return C13Case{D: d, Steps: steps, At: at, Hold: hold, NoLogs: true}
+	return C13Case{D: d, Steps: steps, At: at, Hold: hold, NoLogs: rapid.IntRange(0, 7).Draw(t, "nologs") > 0}
 }
 
 func isActionKey(d *Desc, code uint16) bool {
